@@ -14,7 +14,11 @@ Which law discharges `LwSymm` for which generated formula (`Kodama/Generated/Met
             false for an abstract `Num` (on order-equivalent, non-identical arguments such as `±0`
             the two `least`s are different values).
 * weighted  `add_comm` only (`a + b`)
-* ward      `add_comm` only (twice: the outer sum of the numerator, and `sa + sb` in the denominator)
+* ward      `add_comm` (twice: the outer sum of the numerator, and `sa + sb` in the denominator) for
+            the quotient, AND `OrderLaws.asymm` + `LtTrichotomy` for the guarded clamp of the repaired
+            formula (`least := if a < b then a else b;
+            if !(least < c) && value < least then least else value`, the second `fix:` commit of the
+            crate): as for average.  Before the fix `add_comm` alone was enough.
 * centroid  `add_comm` (`sa*a + sb*b`, `sa + sb`) AND `mul_comm` (`sa * sb`)
 * median    `add_comm` only (`a + b`)
 * single    `OrderLaws.asymm` + `LtTrichotomy` (min of two values, written with one `<`)
@@ -24,12 +28,13 @@ Which law discharges `LwSymm` for which generated formula (`Kodama/Generated/Met
 and `b*a` is the same value; the only caveat is which NaN *payload* is propagated when both
 operands are NaNs, which is implementation-defined).  `LtTrichotomy` is FALSE of IEEE floats
 (`+0`/`-0` are incomparable and different, and so is NaN against anything): for floats the
-single/complete/average instances are theorems about inputs on which it happens to hold.
+single/complete/average/ward instances are theorems about inputs on which it happens to hold.
 No field law (associativity, distributivity, inverses, rounding) is used anywhere.
 -/
 import Kodama.Spec.Naive
 import Kodama.Laws
 import Kodama.Lemmas.AverageClamp
+import Kodama.Lemmas.WardClamp
 namespace Kodama
 
 /-- `+` and `×` commute.  True of IEEE floats as operations on values; when both operands are
@@ -64,12 +69,13 @@ theorem lwSymm_weighted (C : CommLaws α) : LwSymm α .weighted := by
   simp only [lw, Gen.weighted]
   rw [C.add_comm dax]
 
-/-- ward: `add_comm` (outer sum of the numerator; `sa + sb` of the denominator). -/
-theorem lwSymm_ward (C : CommLaws α) : LwSymm α .ward := by
+/-- ward: `add_comm` (outer sum of the numerator; `sa + sb` of the denominator); asymmetry of `<`
+and trichotomy for the guarded clamp `if !(least < c) && value < least then least else value`,
+`least := if a < b then a else b`. -/
+theorem lwSymm_ward (L : OrderLaws α) (T : LtTrichotomy α) (C : CommLaws α) : LwSymm α .ward := by
   intro dax dbx dab sa sb sx
-  simp only [lw, Gen.ward]
-  rw [C.add_comm (Num.mul (Num.add (Num.ofNat sx) (Num.ofNat sa)) dax),
-    C.add_comm (Num.ofNat sa : α) (Num.ofNat sb)]
+  simp only [lw]
+  exact Gen.ward_comm L T C.add_comm dax dbx dab sa sb sx
 
 /-- centroid: `add_comm` (`sa*a + sb*b`, `sa + sb`) and `mul_comm` (`sa * sb`). -/
 theorem lwSymm_centroid (C : CommLaws α) : LwSymm α .centroid := by
@@ -84,15 +90,15 @@ theorem lwSymm_median (C : CommLaws α) : LwSymm α .median := by
   simp only [lw, Gen.median]
   rw [C.add_comm dax]
 
-/-- The four comparison-free formulas: commutativity of `+` (and of `×` for centroid only). -/
+/-- The three comparison-free formulas: commutativity of `+` (and of `×` for centroid only). -/
 theorem lwSymm_of_comm (C : CommLaws α) (m : Method)
-    (hm : m ≠ .single ∧ m ≠ .complete ∧ m ≠ .average) : LwSymm α m := by
+    (hm : m ≠ .single ∧ m ≠ .complete ∧ m ≠ .average ∧ m ≠ .ward) : LwSymm α m := by
   cases m with
   | single => exact absurd rfl hm.1
   | complete => exact absurd rfl hm.2.1
-  | average => exact absurd rfl hm.2.2
+  | average => exact absurd rfl hm.2.2.1
   | weighted => exact lwSymm_weighted C
-  | ward => exact lwSymm_ward C
+  | ward => exact absurd rfl hm.2.2.2
   | centroid => exact lwSymm_centroid C
   | median => exact lwSymm_median C
 
@@ -124,7 +130,7 @@ theorem lwSymm_all (L : OrderLaws α) (T : LtTrichotomy α) (C : CommLaws α) (m
   | complete => exact lwSymm_complete L T
   | average => exact lwSymm_average L T C
   | weighted => exact lwSymm_weighted C
-  | ward => exact lwSymm_ward C
+  | ward => exact lwSymm_ward L T C
   | centroid => exact lwSymm_centroid C
   | median => exact lwSymm_median C
 
